@@ -150,8 +150,12 @@ pub fn c01_key(f: &Finding, p: &Program, _o: &Outcome) -> Option<String> {
             if f.got.contains("no such column: _expr_") && f.sql.contains("ORDER BY") && f.sql.contains(".*") {
                 return Some("orderby-helper-undefined-for-wildcard-column".into());
             }
-            if f.got.contains("UNION ALL do not have the same number") && has_append {
+            if f.got.contains("do not have the same number of result columns") && has_append {
                 return Some("append-branches-projected-differently".into());
+            }
+            // an alias that re-used a column name is referred to by a helper name no SELECT defines
+            if f.got.contains("no such column: _expr_") && shadowing_alias(p) {
+                return Some("column-lost-when-alias-reuses-existing-name".into());
             }
             None
         }
@@ -160,7 +164,19 @@ pub fn c01_key(f: &Finding, p: &Program, _o: &Outcome) -> Option<String> {
             let exp: Vec<Option<String>> = serde_json::from_str(&f.expected).unwrap_or_default();
             let exp_n = exp.len();
             if got.len() > exp_n {
-                let extras = got.iter().filter(|n| helper_name(n) || n.starts_with("_expr_")).count();
+                // columns the compiler carries for its own use (generated helpers, hidden sort keys, a group key
+                // listed next to the wildcard that already holds it — SQLite labels the repeat `name:1`) come
+                // out of a final `SELECT *`
+                let keys = sort_key_names(p);
+                let mut exp_names: Vec<String> = exp.iter().flatten().cloned().collect();
+                let mut extras = 0;
+                for n in &got {
+                    if let Some(i) = exp_names.iter().position(|e| e == n) {
+                        exp_names.remove(i);
+                    } else if helper_name(n) || n.starts_with("_expr_") || n.contains(':') || keys.contains(n) {
+                        extras += 1;
+                    }
+                }
                 if extras >= got.len() - exp_n && f.sql.contains('*') {
                     return Some("helper-column-leaks-through-wildcard".into());
                 }
@@ -193,6 +209,22 @@ pub fn c01_key(f: &Finding, p: &Program, _o: &Outcome) -> Option<String> {
             if distinct_after_take && f.sql.contains("DISTINCT") {
                 return Some("take-then-distinct-merged-into-one-select".into());
             }
+            // `select {x = .., x}`-style: the same name listed twice in one select (seen as wrong values when the
+            // arity happens to match)
+            let dup_in_select = main_frames(p).iter().any(|(fr, s)| match s {
+                Step::Select(items) => {
+                    let names: Vec<Option<String>> = items.iter().map(|it| item_col(it, fr).name).collect();
+                    names.iter().enumerate().any(|(i, n)| n.is_some() && names[..i].contains(n))
+                }
+                _ => false,
+            });
+            if dup_in_select {
+                return Some("same-name-twice-in-select-merged".into());
+            }
+            // an alias re-using a column name next to a wildcard: the wildcard's column and a helper come back
+            if shadowing_alias(p) && f.sql.contains("_expr_") && f.sql.contains("SELECT *") {
+                return Some("column-lost-when-alias-reuses-existing-name".into());
+            }
             // ungrouped aggregate applied to the single row of an earlier ungrouped aggregate
             let top: Vec<&Step> = p.main.iter().flat_map(|m| m.steps.iter()).collect();
             let first_agg = top.iter().position(|s| matches!(s, Step::Aggregate(_)));
@@ -202,9 +234,27 @@ pub fn c01_key(f: &Finding, p: &Program, _o: &Outcome) -> Option<String> {
                 }
                 // the same defect seen through its SQL: an ungrouped aggregate none of whose results is read
                 // later is written as `SELECT NULL FROM …` — one row per input row instead of one row
-                if top[i + 1..].iter().any(|s| matches!(s, Step::Aggregate(_))) && f.sql.contains("(SELECT NULL FROM ") {
+                if i + 1 < top.len() && f.sql.contains("(SELECT NULL FROM ") {
                     return Some("aggregate-of-aggregate-loses-inner-aggregation".into());
                 }
+            }
+            // two columns of different inputs selected under one bare name, then one of them excluded by its
+            // qualified name: the other one is gone as well (`SELECT NULL FROM …`)
+            let dup_then_except = {
+                let fr = main_frames(p);
+                fr.iter().enumerate().any(|(k, (f0, s))| match s {
+                    Step::Select(items) => {
+                        let names: Vec<(&str, &Option<String>)> = items.iter().filter_map(|it| match (&it.alias, &it.e) {
+                            (None, E::Col(i)) => f0.named(*i).map(|n| (n, &f0.cols[*i].input)),
+                            _ => None,
+                        }).collect();
+                        names.iter().enumerate().any(|(i, (n, inp))| names[..i].iter().any(|(m, jnp)| m == n && jnp != inp)) && fr[k + 1..].iter().any(|(_, s2)| matches!(s2, Step::SelectExcept(_)))
+                    }
+                    _ => false,
+                })
+            };
+            if dup_then_except && f.sql.contains("SELECT NULL FROM") {
+                return Some("column-unreachable-after-select-of-two-same-named-columns".into());
             }
             if has_append {
                 return Some("append-branches-projected-differently".into());
